@@ -2,6 +2,7 @@
 from __future__ import annotations
 
 import ast
+import copy
 import glob
 from typing import Dict, List, Optional, Set, Tuple
 
@@ -466,12 +467,31 @@ def rule_units(ctx: Ctx) -> List[Ob]:
             for c in node_calls(n):
                 d = (dotted(c.func) or "")
                 where = "loop" if mm.in_loop(c) else "pre-loop"
-                if d == "is_f0_target_reached" and c.args:
+                def by_name(call, qual, names):
+                    """the arguments bound to the named parameters (definition order may differ from the reference)"""
+                    g_ = ctx.repo.funcs.get(qual)
+                    if g_ is not None and all(p_ in g_.params for p_ in names):
+                        try:
+                            b_ = bind_args(call, g_.node)
+                            if all(p_ in b_ for p_ in names):
+                                return [b_[p_] for p_ in names]
+                        except AnalysisError:
+                            pass
+                    return list(call.args[:len(names)]) if len(call.args) >= len(names) else None
+                if d == "is_f0_target_reached" and (c.args or c.keywords):
+                    a_ = by_name(c, "main.is_f0_target_reached", ["f0"])
+                    if a_ is None:
+                        continue
+                    c = copy.copy(c)
+                    c.args = a_ + list(c.args[1:])
                     u = unit_of(c.args[0], st)
                     tgt_seen += 1
                     rec("target stop is tested on the unscaled value", f"is_f0_target_reached({short(c.args[0])}, ..) @{where}", mode, u == RAW,
                         f"unit({short(c.args[0])}) = {u} with the wrapper's factor = {cur(st)}" + ("" if u == RAW else ": ftarget is compared with a scaled value"), c)
-                if d == "is_f0_min_change_reached" and len(c.args) >= 2:
+                if d == "is_f0_min_change_reached" and by_name(c, "main.is_f0_min_change_reached", ["f0", "f0_old"]) is not None:
+                    a_ = by_name(c, "main.is_f0_min_change_reached", ["f0", "f0_old"])
+                    c = copy.copy(c)
+                    c.args = a_ + list(c.args[2:])
                     u1, u2 = unit_of(c.args[0], st), unit_of(c.args[1], st)
                     rec("relative-change test compares like units", f"is_f0_min_change_reached({short(c.args[0])}, {short(c.args[1])}, ..)", mode,
                         u1 == u2 and (u1 == RAW or u1.startswith("SCALED")), f"units: {short(c.args[0])}={u1}, {short(c.args[1])}={u2}", c)
